@@ -112,7 +112,16 @@ def steady_state_transport_solver(
     # Check cache for footprint mode (after the default halo is resolved, so
     # that lookup and store use the same key)
     if cache is not None and footprint:
-        cached = cache.get(z, profiles, domain, modes, meas_pt, halo, precision)
+        # inputs beyond the classic key that also determine the result
+        cache_extra = (
+            tuple(srf_flx.shape),
+            out_levels.tolist(),
+            float(srf_bg_conc),
+            bool(analytic),
+        )
+        cached = cache.get(
+            z, profiles, domain, modes, meas_pt, halo, precision, extra=cache_extra
+        )
         if cached is not None:
             return cached
 
@@ -311,7 +320,17 @@ def steady_state_transport_solver(
 
     # Store to cache for footprint mode
     if cache is not None and footprint:
-        cache.put(z, profiles, domain, modes, meas_pt, halo, precision, *result)
+        cache.put(
+            z,
+            profiles,
+            domain,
+            modes,
+            meas_pt,
+            halo,
+            precision,
+            *result,
+            extra=cache_extra,
+        )
 
     return result
 
